@@ -35,8 +35,13 @@ fn parse_file(file: &mut SliceFile, ast: &mut Ast, diagnostics: &mut Diagnostics
     let Ok(preprocessed_text) = preprocessor.parse_slice_file(file.raw_text.as_str()) else { return };
 
     // Parse the preprocessed text.
+    let element_count = ast.as_slice().len();
     let parser = Parser::new(&file.relative_path, ast, diagnostics);
-    let Ok((attributes, module, definitions)) = parser.parse_slice_file(preprocessed_text) else { return };
+    let Ok((attributes, module, definitions)) = parser.parse_slice_file(preprocessed_text) else {
+        // Discard whatever the parser added to the AST before it failed (see `Ast::truncate`).
+        ast.truncate(element_count);
+        return;
+    };
 
     // Issue a syntax error if the user had definitions but forgot to declare a module.
     if !definitions.is_empty() && module.is_none() {
